@@ -64,8 +64,10 @@ func (s step) String() string {
 		return fmt.Sprintf("%s.del(%q)", s.Trie, s.Path)
 	case "merge":
 		return fmt.Sprintf("merge %s into %s (commit cache: %v)", s.Child, s.Trie, s.Flag)
-	case "commit-cache+merge":
-		return fmt.Sprintf("commit the cache of %s, then merge it into %s", s.Child, s.Trie)
+	case "commit-cache+merge", "commit-cache+merge(by value)":
+		return fmt.Sprintf("commit the cache of %s, then merge it into %s [%s]", s.Child, s.Trie, s.Kind)
+	case "merge(by value)":
+		return fmt.Sprintf("merge %s into %s by value (commit cache: %v)", s.Child, s.Trie, s.Flag)
 	case "discard":
 		return fmt.Sprintf("discard %s", s.Child)
 	case "read":
@@ -290,6 +292,7 @@ func run(rt *rapid.T) {
 	overlap, staleRejected, discarded, cacheCommitted, cacheNot, grand := false, false, false, false, false, false
 	lateDelete := false
 	nested := false
+	byValue := false
 	var nestForks []string
 	mergedCount := 0
 
@@ -459,7 +462,16 @@ func run(rt *rapid.T) {
 				commit = false
 				st.Kind = "commit-cache+merge"
 			}
-			err := p.mpt.MergeMPTChanges(c.mpt)
+			// the merge goes through MergeMPTChanges or, a third of the time, through the by-value entry point
+			var err error
+			if gen.Chance(rt, 33, "byvalue") {
+				r, ch, dl, sr := c.mpt.GetChanges()
+				err = p.mpt.MergeChanges(r, ch, dl, sr)
+				byValue = true
+				st.Kind += "(by value)"
+			} else {
+				err = p.mpt.MergeMPTChanges(c.mpt)
+			}
 			childRoot := c.mpt.GetRoot()
 			if c.stale {
 				// parent moved on: must be rejected unless the child changed nothing relative to the parent's current root
@@ -528,7 +540,7 @@ func run(rt *rapid.T) {
 			if t == actor || !t.open && t != w.block {
 				continue
 			}
-			if (st.Kind == "merge" || st.Kind == "commit-cache+merge") && t.name == st.Child {
+			if strings.Contains(st.Kind, "merge") && t.name == st.Child {
 				continue
 			}
 			if t.stale {
@@ -592,6 +604,7 @@ func run(rt *rapid.T) {
 	add(grand, "grand-child")
 	add(lateDelete, "delete-after-sibling-merge")
 	add(nested, "nested-prefix-triple")
+	add(byValue, "merge-by-value")
 	add(mergedCount >= 2, "two-merges")
 	var sb strings.Builder
 	fmt.Fprintf(&sb, "%v|", w.genesis)
